@@ -14,8 +14,9 @@ from pathlib import Path
 
 VERIF = Path(__file__).resolve().parent.parent
 REPO = Path(os.environ.get("VERIF_REPO", "/repo"))
-EVIDENCE_DIR = VERIF / "evidence"
-REPLAY_DIR = VERIF / "replay"
+_ALT = REPO != Path("/repo")  # judging another checkout (a seeded change): keep its output away from the real evidence
+EVIDENCE_DIR = Path(f"/tmp/verif-alt/{REPO.name}/evidence") if _ALT else VERIF / "evidence"
+REPLAY_DIR = Path(f"/tmp/verif-alt/{REPO.name}/replay") if _ALT else VERIF / "replay"
 KNOWN_FILE = VERIF / "known_findings.json"
 
 LEVELS = ("exploration", "fault_enumeration", "model_checking", "proof", "translation_validation", "other")
@@ -155,7 +156,7 @@ class Check:
             "known_findings_seen": sorted(self.known_hits),
             "notes": self.notes,
         }
-        EVIDENCE_DIR.mkdir(exist_ok=True)
+        EVIDENCE_DIR.mkdir(parents=True, exist_ok=True)
         (EVIDENCE_DIR / f"{self.pid}.json").write_text(json.dumps(ev, indent=1, default=str) + "\n")
         c = self.coverage
         print(
